@@ -83,6 +83,8 @@ impl Prop for P19 {
                     "badopt" => (vec!["-n", "0"], b"a b\n"),
                     "badopt2" => (vec!["-s", "abc"], b"a b\n"),
                     "badopt3" => (vec!["-L", "-3"], b"a b\n"),
+                    "badopt4" => (vec!["--no-such-option"], b"a b\n"),
+                    "badopt5" => (vec!["-Z"], b"a b\n"),
                     "quote" => (vec!["-n", "1"], b"a 'b c\n"),
                     "quote2" => (vec![], b"x \"unterminated\n"),
                     "toolong4" | "toolong5" => (vec![], b"ab\nabcdefghijklmnopqrst\ncd\n"),
@@ -127,7 +129,7 @@ impl Prop for P19 {
 
     fn gen(&mut self, rng: &mut Rng, idx: usize, tier: &str) -> Value {
         if idx % 8 == 7 {
-            let k = *rng.pick(&["notfound", "notfound_norun", "notfound_quote", "notexec", "notexec_dir", "notexec_notdir", "notexec_loop", "badopt", "badopt2", "badopt3", "quote", "quote2", "quote3", "quote4", "quote5", "toolong", "toolong2", "toolong3", "toolong4", "toolong5"]);
+            let k = *rng.pick(&["notfound", "notfound_norun", "notfound_quote", "notexec", "notexec_dir", "notexec_notdir", "notexec_loop", "badopt", "badopt2", "badopt3", "badopt4", "badopt5", "quote", "quote2", "quote3", "quote4", "quote5", "toolong", "toolong2", "toolong3", "toolong4", "toolong5"]);
             return json!({"kind": k});
         }
         let len = if idx % 10 == 0 { rng.below(if tier == "thorough" { 200 } else { 60 }) } else { rng.below(9) };
